@@ -96,7 +96,7 @@ tags: income
 match: amount > 1000
 tags: large
 '''
-CSV_RULES_TEXT = ('Pattern,Merchant,Category,Subcategory,Tags\nUBER,Uber,Transport,Ride,ride\nNETFLIX,Netflix,Subs,Streaming,video\n'
+CSV_RULES_TEXT = ('Pattern,Merchant,Category,Subcategory,Tags\nUBER,Uber,Transport,Ride,ride\nUBER EATS,Uber Eats,Food,Delivery,\nNETFLIX,Netflix,Subs,Streaming,video\n'
                   'PAYROLL,Payroll,Income,Salary,income\nWIRE,Wire,Finance,Wire,transfer\n.*[amount>1000],Big,,,large\n')
 VIEWS_TEXT = '[Everything]\nfilter: true\n\n[Subscriptions]\nfilter: category == "Subs"\n\n[Twice]\nfilter: months >= 2 or count(payments) >= 2\n'
 VIEWS_BAD = '[Everything]\nfilter: true\n\n[Broken\nfilter: total >\n'
@@ -134,6 +134,8 @@ def deviations():
                 devs.append((f"{s}.sign", f"{s}:sign-{g}", lambda c, s=s, g=g: c["sources"][s].__setitem__("sign", g)))
         for st in ("missing", "directory", "bad-utf8"):
             devs.append((f"{s}.state", f"{s}:{st}", lambda c, s=s, st=st: c["sources"][s].__setitem__("state", st)))
+        # a file name that holds shell-wildcard characters (a browser's duplicate download): it names exactly that file
+        devs.append((f"{s}.fname", f"{s}:file-name-with-brackets", lambda c, s=s: c["sources"][s].__setitem__("fname", f"{s.lower()}[1].csv")))
         devs.append((f"{s}.name", f"{s}:renamed", lambda c, s=s: c["sources"][s].__setitem__("name", "Card" if s == "Bank" else "Visa")))
     for r in ("csv", "none", "nowhere"):
         devs.append(("rules", f"rules:{r}", lambda c, r=r: c.__setitem__("rules", r)))
@@ -204,7 +206,7 @@ def source_yaml(key, sc):
             toks.append({"keep": "{amount}", "override": "{amount}", "negate": "{-amount}", "abs": "{+amount}"}[sc["sign"]])
         else:
             toks.append("{" + c + "}")
-    lines = [f"  - name: {sc['name']}", f"    file: data/{key.lower()}.csv", '    format: "' + ",".join(toks) + '"']
+    lines = [f"  - name: {sc['name']}", f"    file: data/{sc.get('fname') or key.lower() + '.csv'}", '    format: "' + ",".join(toks) + '"']
     if sc["delimiter"] == "semicolon":
         lines.append('    delimiter: ";"')
     elif sc["delimiter"] == "tab":
@@ -244,7 +246,7 @@ def materialise(cfg, base):
     for key in cfg["order"]:
         sc = cfg["sources"][key]
         y.append(source_yaml(key, sc))
-        path = os.path.join(base, "data", f"{key.lower()}.csv")
+        path = os.path.join(base, "data", sc.get("fname") or f"{key.lower()}.csv")
         if sc["state"] == "missing":
             continue
         if sc["state"] == "directory":
@@ -388,7 +390,7 @@ def check_under_mode(case, cfg, mode):
     for key in cfg["order"]:
         sc = cfg["sources"][key]
         # reported = some line of the output names the source (or its file) together with a problem word; wording, stream and layout are free
-        fn = f"{key.lower()}.csv"
+        fn = sc.get("fname") or f"{key.lower()}.csv"
         lines_naming = [l for l in out_all.splitlines() if sc["name"] in l or fn in l]
         problem = re.compile(r"(?i)not found|missing|error|cannot|can't|could not|unable|skip|unreadable|invalid|fail|no such|directory|decod|utf|warning|problem|does not exist")
         if sc["state"] != "ok" and not any(problem.search(l) for l in lines_naming):
@@ -418,6 +420,25 @@ def check_under_mode(case, cfg, mode):
                 if sm.get(k) != w:
                     viol.append({"kind": "report-differs-from-pipeline", "detail": {"deviations": labels, "output": "json", "figure": k, "expected": w, "got": sm.get(k)}})
             outcomes.add(f"{len(want)}merchants")
+            if cfg["rules"] == "csv":
+                # the run that migrates the legacy CSV on request must report what the plain run reports (same rule mode, same everything)
+                mig = base + "_mig"
+                shutil.rmtree(mig, ignore_errors=True)
+                shutil.copytree(base, mig)
+                rm = proc.run_cli(["up", "--migrate", "--format", "json", "-v"], cwd=mig)
+                evals += 1
+                try:
+                    jm = json.loads(rm["stdout"][rm["stdout"].index("\n{"):])
+                    got_m = {m["name"]: {"category": m["category"], "subcategory": m["subcategory"], "tags": sorted(m["tags"]), "total": m["total"], "count": m["count"],
+                                         "raw": m.get("raw_descriptions", {})} for m in jm["merchants"]}
+                except Exception as e:  # noqa
+                    got_m = f"no JSON report (exit {rm['exit']}): {rm['stderr'][-200:]}"
+                if got_m != got:
+                    diff = sorted(k for k in (set(got_m) | set(got) if isinstance(got_m, dict) else set()) if got_m.get(k) != got.get(k))
+                    viol.append({"kind": "migrating-run-reports-differently", "detail": {"deviations": labels, "merchants": diff[:4],
+                                                                                        "plain_run": {k: got.get(k) for k in diff[:3]},
+                                                                                        "migrating_run": ({k: got_m.get(k) for k in diff[:3]} if isinstance(got_m, dict) else got_m)}})
+                shutil.rmtree(mig, ignore_errors=True)
         # ---------------- summary (views)
         r2 = proc.run_cli(["up", "--format", "summary"], cwd=base)
         evals += 1
